@@ -120,3 +120,15 @@ def tops_of(P, start_paths, stop):
         else:
             work.extend(ups)
     return out
+
+
+def is_queue_receiver(f, sl, operand):
+    """The operand is (a borrow of) the writer's pending-operations queue: the field `pending_ops`, or any Vec<PendingOp>
+    (a helper taking the queue by reference)."""
+    from sa.prog import op_local
+    if "pending_ops" in sl.fields(operand):
+        return True
+    l = op_local(operand)
+    # a queue handed in by reference (parameter), not a local vector being built (WAL replay in IndexWriter::new)
+    return l is not None and "Vec<searchlite_core::api::writer::PendingOp>" in f.local_ty(l).replace("alloc::vec::", "") and \
+        bool(sl.args(operand)) and "&mut" in f.local_ty(l)
